@@ -1,7 +1,29 @@
 ------------------------------- MODULE Regex -------------------------------
 (* like_regex: the pattern fragment the specification decides.              *)
-(* flags = [i, s, m, q] (BOOLEANs).  RegexMatch returns "T", "F" or        *)
-(* "opaque" (pattern outside the fragment).                                 *)
+(* flags = [i, s, m, q, x] (BOOLEANs).  RegexMatch returns "T", "F" or     *)
+(* "opaque" (pattern or subject outside the fragment).                      *)
+(*                                                                          *)
+(* The library evaluates  s like_regex "pat" flag "f"  as Go                *)
+(*   regexp.MustCompile(prefix + pattern).MatchString(s)                    *)
+(* with pattern = QuoteMeta(pat), prefix = "(?i)" or "" under flag q, and   *)
+(* pattern = pat, prefix = "(?" i s m ")" (or "") otherwise.  MatchString   *)
+(* is an unanchored search, so only the language of the pattern matters.    *)
+(*                                                                          *)
+(* Decided here:                                                            *)
+(*   - flag q, and patterns without any meta byte: byte substring search    *)
+(*     (ASCII case folding under flag i, non-ASCII with i is opaque; a      *)
+(*     non-ASCII pattern needs pattern and subject to be well-formed UTF-8);*)
+(*   - otherwise an ASCII fragment of RE2 (pattern and subject bytes < 128, *)
+(*     pattern up to RxMaxPat bytes, subject up to RxMaxSubj bytes):        *)
+(*     literals, dot, escaped punctuation, \d \D \w \W \s \S, \n \t \r \f   *)
+(*     \v \a, classes [..] [^..] with ranges / escapes / Perl classes,      *)
+(*     groups ( ) and (?: ), alternation, * + ? {n} {n,} {n,m} (n, m <= 4)  *)
+(*     and their lazy forms, ^ $ \A \z \b \B, flags i s m.                  *)
+(* Everything else -- in particular every pattern Go rejects, and flag x     *)
+(* without q, which the path parser rejects -- is "opaque".                 *)
+(* RxPatternClass tells "valid" / "invalid" / "opaque" for a pattern alone, *)
+(* RxWhyOpaque the reason of an "opaque".  Validated against Go's regexp by *)
+(* tests/regex (run.sh).  All names added for the matcher start with Rx.    *)
 EXTENDS Integers, Sequences
 
 FoldB(b) == IF b >= 65 /\ b <= 90 THEN b + 32 ELSE b
@@ -19,9 +41,312 @@ IsLiteralPattern(p) == \A i \in 1..Len(p) : p[i] \notin MetaBytes
 IsAscii(s) == \A i \in 1..Len(s) : s[i] < 128
 
 TF(b) == IF b THEN "T" ELSE "F"
+
+-----------------------------------------------------------------------------
+\* Byte sets.  The subject is ASCII whenever these are used.
+
+RxAll   == 0..127
+RxDigit == 48..57
+RxAlnum == (48..57) \cup (65..90) \cup (97..122)
+RxWord  == RxAlnum \cup {95}
+RxSpace == {9, 10, 12, 13, 32}              \* \s is [\t\n\f\r ], no \v
+
+RxSwap(b) == IF b >= 65 /\ b <= 90 THEN b + 32
+             ELSE IF b >= 97 /\ b <= 122 THEN b - 32 ELSE b
+\* (?i): a set matches a byte when it contains the byte or its other case
+RxFoldSet(cs, f) == IF f.i THEN cs \cup {RxSwap(b) : b \in cs} ELSE cs
+
+-----------------------------------------------------------------------------
+\* Parser.  Results: [ok |-> TRUE, node, pos]  (pos = next unread index) or
+\* [ok |-> FALSE, why]  with why = "invalid" (Go rejects the pattern) or the
+\* reason why the pattern is outside the fragment (Go may accept or reject it):
+\* "nonascii", "escape" (octal, hex, \p, \Q, \C, unknown letters), "group"
+\* (anything after an opening parenthesis and question mark but a colon),
+\* "count" (a repetition count above 4 or of several digits), "posix"
+\* ([:alpha:] ...), "depth" (counted repetitions nested more than 4 deep).
+\* RxWhyOpaque adds "flagx", "utf8" and "long".
+\* Nodes (field k is the kind):
+\*   set(cs)  empty  cat(a, b)  alt(a, b)  star(x)  plus(x)  opt(x)
+\*   rep(x, lo, hi)  (hi = -1: unbounded)   bot eot bol eol wb nwb
+
+RxBad(why)      == [ok |-> FALSE, why |-> why]
+RxOk(node, pos) == [ok |-> TRUE, node |-> node, pos |-> pos]
+
+RxSetNode(cs) == [k |-> "set", cs |-> cs]
+RxEmptyNode   == [k |-> "empty"]
+
+RxIsPerl(e) == e \in {100, 68, 119, 87, 115, 83}         \* d D w W s S
+RxPerl(e) == CASE e = 100 -> RxDigit  [] e = 68 -> RxAll \ RxDigit
+               [] e = 119 -> RxWord   [] e = 87 -> RxAll \ RxWord
+               [] e = 115 -> RxSpace  [] e = 83 -> RxAll \ RxSpace
+
+\* The byte an escape \e denotes as a single character; -1: not in the
+\* fragment (octal, hex, \p, \Q, \C ... or an escape Go rejects).  Go takes
+\* every escaped ASCII byte that is not a letter or digit as itself.
+RxEscChar(e) ==
+  IF e >= 128 THEN -1
+  ELSE IF e \notin RxAlnum THEN e
+  ELSE CASE e = 110 -> 10 [] e = 116 -> 9  [] e = 114 -> 13
+         [] e = 102 -> 12 [] e = 118 -> 11 [] e = 97 -> 7 [] OTHER -> -1
+
+RxIsDigitAt(p, k) == k <= Len(p) /\ p[k] >= 48 /\ p[k] <= 57
+
+\* p[pos] is an opening brace.  [t |-> "no"] the brace is a literal (Go's rule:
+\* whatever does not parse as a repetition is literal text);
+\* [t |-> "big"] a number of two or more digits (not handled);
+\* [t |-> "rep", lo, hi, pos] a repetition, pos the index after the closing brace.
+RxRepeatAt(p, pos) ==
+  LET n == Len(p) IN
+  IF ~RxIsDigitAt(p, pos + 1) THEN [t |-> "no"]
+  ELSE IF RxIsDigitAt(p, pos + 2) THEN [t |-> "big"]
+  ELSE IF pos + 2 > n THEN [t |-> "no"]
+  ELSE LET lo == p[pos + 1] - 48 IN
+       IF p[pos + 2] = 125 THEN [t |-> "rep", lo |-> lo, hi |-> lo, pos |-> pos + 3]
+       ELSE IF p[pos + 2] # 44 \/ pos + 3 > n THEN [t |-> "no"]
+       ELSE IF p[pos + 3] = 125 THEN [t |-> "rep", lo |-> lo, hi |-> -1, pos |-> pos + 4]
+       ELSE IF ~RxIsDigitAt(p, pos + 3) THEN [t |-> "no"]
+       ELSE IF RxIsDigitAt(p, pos + 4) THEN [t |-> "big"]
+       ELSE IF pos + 4 > n \/ p[pos + 4] # 125 THEN [t |-> "no"]
+       ELSE [t |-> "rep", lo |-> lo, hi |-> p[pos + 3] - 48, pos |-> pos + 5]
+
+\* What follows a repetition operator, at pos: "invalid" when another
+\* repetition operator starts there (Go rejects a** a+? * a{2}{2} ...),
+\* "count" when that cannot be told, else "ok".
+RxAfterRep(p, pos) ==
+  IF pos > Len(p) THEN "ok"
+  ELSE IF p[pos] \in {42, 43, 63} THEN "invalid"
+  ELSE IF p[pos] # 123 THEN "ok"
+  ELSE LET t == RxRepeatAt(p, pos).t IN
+       IF t = "rep" THEN "invalid" ELSE IF t = "big" THEN "count" ELSE "ok"
+
+\* The items of a bracket expression from q on; first: a closing bracket here is a literal.
+\* [ok |-> TRUE, cs, pos] with pos the index after the closing bracket.
+RECURSIVE RxClassItems(_, _, _, _)
+RxClassItems(p, q, first, acc) ==
+  IF q > Len(p) THEN RxBad("invalid")                        \* missing closing bracket
+  ELSE LET c == p[q] IN
+  IF c = 93 /\ ~first THEN [ok |-> TRUE, cs |-> acc, pos |-> q + 1]
+  ELSE IF c >= 128 THEN RxBad("nonascii")
+  ELSE IF c = 91 /\ q + 1 <= Len(p) /\ p[q + 1] = 58 THEN RxBad("posix")   \* [:alpha:]
+  ELSE IF c = 92 /\ q + 1 > Len(p) THEN RxBad("invalid")     \* trailing backslash
+  ELSE IF c = 92 /\ RxIsPerl(p[q + 1]) THEN RxClassItems(p, q + 2, FALSE, acc \cup RxPerl(p[q + 1]))
+  ELSE LET lo == IF c = 92 THEN RxEscChar(p[q + 1]) ELSE c
+           a  == IF c = 92 THEN q + 2 ELSE q + 1             \* index after lo
+       IN IF lo < 0 THEN RxBad("escape")
+          ELSE IF a + 1 <= Len(p) /\ p[a] = 45 /\ p[a + 1] # 93 THEN   \* a range lo-hi
+             LET h == p[a + 1] IN
+             IF h = 92 THEN
+                IF a + 2 > Len(p) THEN RxBad("invalid")
+                ELSE LET hi == RxEscChar(p[a + 2]) IN
+                     IF hi < 0 THEN RxBad("escape")
+                     ELSE IF hi < lo THEN RxBad("invalid")
+                     ELSE RxClassItems(p, a + 3, FALSE, acc \cup (lo..hi))
+             ELSE IF h >= 128 THEN RxBad("nonascii")
+             ELSE IF h < lo THEN RxBad("invalid")
+             ELSE RxClassItems(p, a + 2, FALSE, acc \cup (lo..h))
+          ELSE RxClassItems(p, a, FALSE, acc \cup {lo})
+
+\* p[pos] is the opening bracket
+RxClass(p, pos, f) ==
+  LET neg == pos + 1 <= Len(p) /\ p[pos + 1] = 94
+      r   == RxClassItems(p, IF neg THEN pos + 2 ELSE pos + 1, TRUE, {})
+  IN IF ~r.ok THEN r
+     ELSE LET cs == RxFoldSet(r.cs, f)
+          IN RxOk(RxSetNode(IF neg THEN RxAll \ cs ELSE cs), r.pos)
+
+\* p[pos] is a backslash, outside brackets
+RxEscape(p, pos, f) ==
+  IF pos + 1 > Len(p) THEN RxBad("invalid")                  \* trailing backslash
+  ELSE LET e == p[pos + 1] IN
+       IF e = 65 THEN RxOk([k |-> "bot"], pos + 2)
+       ELSE IF e = 122 THEN RxOk([k |-> "eot"], pos + 2)
+       ELSE IF e = 98 THEN RxOk([k |-> "wb"], pos + 2)
+       ELSE IF e = 66 THEN RxOk([k |-> "nwb"], pos + 2)
+       ELSE IF RxIsPerl(e) THEN RxOk(RxSetNode(RxPerl(e)), pos + 2)
+       ELSE LET b == RxEscChar(e) IN
+            IF b < 0 THEN RxBad("escape") ELSE RxOk(RxSetNode(RxFoldSet({b}, f)), pos + 2)
+
+\* an optional repetition operator at pos applied to node
+RxQuant(p, node, pos) ==
+  IF pos > Len(p) THEN RxOk(node, pos)
+  ELSE LET c == p[pos] IN
+  IF c \in {42, 43, 63} THEN
+     LET np == IF pos + 1 <= Len(p) /\ p[pos + 1] = 63 THEN pos + 2 ELSE pos + 1   \* lazy: same language
+         after == RxAfterRep(p, np)
+     IN IF after # "ok" THEN RxBad(after)
+        ELSE RxOk([k |-> IF c = 42 THEN "star" ELSE IF c = 43 THEN "plus" ELSE "opt", x |-> node], np)
+  ELSE IF c = 123 THEN
+     LET r == RxRepeatAt(p, pos) IN
+     IF r.t = "no" THEN RxOk(node, pos)                      \* literal brace, the next atom
+     ELSE IF r.t = "big" THEN RxBad("count")
+     ELSE IF r.hi >= 0 /\ r.lo > r.hi THEN RxBad("invalid")
+     ELSE LET np == IF r.pos <= Len(p) /\ p[r.pos] = 63 THEN r.pos + 1 ELSE r.pos
+              after == RxAfterRep(p, np)
+          IN IF after # "ok" THEN RxBad(after)
+             ELSE IF r.lo > 4 \/ r.hi > 4 THEN RxBad("count")
+             ELSE RxOk([k |-> "rep", x |-> node, lo |-> r.lo, hi |-> r.hi], np)
+  ELSE RxOk(node, pos)
+
+RECURSIVE RxParseAlt(_, _, _), RxParseCat(_, _, _), RxParseAtom(_, _, _)
+
+\* alternation: stops at a closing parenthesis or at the end
+RxParseAlt(p, pos, f) ==
+  LET c == RxParseCat(p, pos, f) IN
+  IF ~c.ok THEN c
+  ELSE IF c.pos <= Len(p) /\ p[c.pos] = 124 THEN
+     LET r == RxParseAlt(p, c.pos + 1, f) IN
+     IF ~r.ok THEN r ELSE RxOk([k |-> "alt", a |-> c.node, b |-> r.node], r.pos)
+  ELSE c
+
+\* concatenation: stops at a bar, a closing parenthesis or at the end
+RxParseCat(p, pos, f) ==
+  IF pos > Len(p) \/ p[pos] = 124 \/ p[pos] = 41 THEN RxOk(RxEmptyNode, pos)
+  ELSE LET a == RxParseAtom(p, pos, f) IN
+       IF ~a.ok THEN a
+       ELSE LET q == RxQuant(p, a.node, a.pos) IN
+            IF ~q.ok THEN q
+            ELSE LET r == RxParseCat(p, q.pos, f) IN
+                 IF ~r.ok THEN r
+                 ELSE IF r.node.k = "empty" THEN RxOk(q.node, r.pos)
+                 ELSE RxOk([k |-> "cat", a |-> q.node, b |-> r.node], r.pos)
+
+RxParseAtom(p, pos, f) ==
+  LET c == p[pos] IN
+  IF c >= 128 THEN RxBad("nonascii")
+  ELSE IF c = 40 THEN                                        \* group
+     LET q == pos + 1 <= Len(p) /\ p[pos + 1] = 63 IN
+     IF q /\ ~(pos + 2 <= Len(p) /\ p[pos + 2] = 58) THEN RxBad("group")   \* (?i) (?P<n> ...
+     ELSE LET r == RxParseAlt(p, IF q THEN pos + 3 ELSE pos + 1, f) IN
+          IF ~r.ok THEN r
+          ELSE IF r.pos > Len(p) THEN RxBad("invalid")       \* missing closing parenthesis
+          ELSE RxOk(r.node, r.pos + 1)
+  ELSE IF c = 91 THEN RxClass(p, pos, f)
+  ELSE IF c = 92 THEN RxEscape(p, pos, f)
+  ELSE IF c \in {42, 43, 63} THEN RxBad("invalid")           \* missing argument to repetition
+  ELSE IF c = 123 THEN
+     LET r == RxRepeatAt(p, pos) IN
+     IF r.t = "no" THEN RxOk(RxSetNode({123}), pos + 1)
+     ELSE IF r.t = "big" THEN RxBad("count") ELSE RxBad("invalid")
+  ELSE IF c = 46 THEN RxOk(RxSetNode(IF f.s THEN RxAll ELSE RxAll \ {10}), pos + 1)
+  ELSE IF c = 94 THEN RxOk([k |-> IF f.m THEN "bol" ELSE "bot"], pos + 1)
+  ELSE IF c = 36 THEN RxOk([k |-> IF f.m THEN "eol" ELSE "eot"], pos + 1)
+  ELSE RxOk(RxSetNode(RxFoldSet({c}, f)), pos + 1)
+
+\* nesting depth of counted repetitions (Go limits the product of the counts to 1000)
+RECURSIVE RxRepDepth(_)
+RxRepDepth(n) ==
+  IF n.k \in {"cat", "alt"} THEN
+     LET a == RxRepDepth(n.a)  b == RxRepDepth(n.b) IN IF a > b THEN a ELSE b
+  ELSE IF n.k \in {"star", "plus", "opt"} THEN RxRepDepth(n.x)
+  ELSE IF n.k = "rep" THEN 1 + RxRepDepth(n.x)
+  ELSE 0
+
+RxParse(p, f) ==
+  LET r == RxParseAlt(p, 1, f) IN
+  IF ~r.ok THEN r
+  ELSE IF r.pos <= Len(p) THEN RxBad("invalid")              \* unmatched closing parenthesis
+  ELSE IF RxRepDepth(r.node) > 4 THEN RxBad("depth")
+  ELSE r
+
+-----------------------------------------------------------------------------
+\* Matcher.  Positions are 0..Len(s) (position q is between s[q] and s[q+1]).
+\* RxEnds(n, s, P): the positions where a match of n can end when it starts
+\* at some position of P.
+
+RxWordAt(s, k) == k >= 1 /\ k <= Len(s) /\ s[k] \in RxWord
+
+RECURSIVE RxEnds(_, _, _), RxStarLoop(_, _, _, _), RxTimes(_, _, _, _), RxUpTo(_, _, _, _)
+
+RxEnds(n, s, P) ==
+  IF P = {} THEN {}
+  ELSE CASE n.k = "set"   -> {q + 1 : q \in {r \in P : r < Len(s) /\ s[r + 1] \in n.cs}}
+         [] n.k = "cat"   -> RxEnds(n.b, s, RxEnds(n.a, s, P))
+         [] n.k = "alt"   -> RxEnds(n.a, s, P) \cup RxEnds(n.b, s, P)
+         [] n.k = "star"  -> RxStarLoop(n.x, s, P, P)
+         [] n.k = "plus"  -> LET Q == RxEnds(n.x, s, P) IN RxStarLoop(n.x, s, Q, Q)
+         [] n.k = "opt"   -> P \cup RxEnds(n.x, s, P)
+         [] n.k = "rep"   -> LET Q == RxTimes(n.x, s, P, n.lo)
+                             IN IF n.hi < 0 THEN RxStarLoop(n.x, s, Q, Q)
+                                ELSE RxUpTo(n.x, s, Q, n.hi - n.lo)
+         [] n.k = "empty" -> P
+         [] n.k = "bot"   -> P \cap {0}
+         [] n.k = "eot"   -> P \cap {Len(s)}
+         [] n.k = "bol"   -> {q \in P : q = 0 \/ s[q] = 10}
+         [] n.k = "eol"   -> {q \in P : q = Len(s) \/ s[q + 1] = 10}
+         [] n.k = "wb"    -> {q \in P : RxWordAt(s, q) # RxWordAt(s, q + 1)}
+         [] n.k = "nwb"   -> {q \in P : RxWordAt(s, q) = RxWordAt(s, q + 1)}
+
+\* x*: closure; acc = everything reached so far, fr = the part not yet expanded.
+\* An iteration that consumes nothing adds nothing, so this terminates.
+RxStarLoop(x, s, acc, fr) ==
+  IF fr = {} THEN acc
+  ELSE LET nx == RxEnds(x, s, fr) \ acc IN RxStarLoop(x, s, acc \cup nx, nx)
+
+\* exactly k times
+RxTimes(x, s, P, k) == IF k = 0 \/ P = {} THEN P ELSE RxTimes(x, s, RxEnds(x, s, P), k - 1)
+
+\* 0 to k times
+RxUpTo(x, s, P, k) == IF k = 0 \/ P = {} THEN P ELSE P \cup RxUpTo(x, s, RxEnds(x, s, P), k - 1)
+
+-----------------------------------------------------------------------------
+RxFlagX(flags) == IF "x" \in DOMAIN flags THEN flags.x ELSE FALSE
+
+\* Parser and matcher recurse once per pattern piece, nesting level and (in
+\* the worst case) subject position; beyond these lengths the recursion may
+\* not fit TLC's default 1 MB Java stack, so the answer is "opaque".
+RxMaxPat  == 48
+RxMaxSubj == 128
+
+\* Well-formed UTF-8 as Go's unicode/utf8 decodes it (no overlong forms, no
+\* surrogates, nothing above U+10FFFF).  Go rejects a pattern that is not
+\* (also under flag q), and it decodes every ill-formed byte of the subject
+\* as U+FFFD, which a U+FFFD in the pattern then matches.
+RxCont(b) == b >= 128 /\ b <= 191
+RxLeadLen(b) == IF b < 128 THEN 1 ELSE IF b >= 194 /\ b <= 223 THEN 2
+                ELSE IF b >= 224 /\ b <= 239 THEN 3 ELSE IF b >= 240 /\ b <= 244 THEN 4
+                ELSE 0                                       \* not a first byte
+RxSecondOk(l, b) == CASE l = 224 -> b >= 160 /\ b <= 191 [] l = 237 -> b >= 128 /\ b <= 159
+                      [] l = 240 -> b >= 144 /\ b <= 191 [] l = 244 -> b >= 128 /\ b <= 143
+                      [] OTHER -> RxCont(b)
+RxValidUTF8(s) ==
+  \A k \in 1..Len(s) :
+    LET b == s[k]  n == RxLeadLen(b) IN
+    IF n >= 1 THEN /\ k + n - 1 <= Len(s)
+                   /\ (n >= 2 => RxSecondOk(b, s[k + 1]))
+                   /\ \A j \in (k + 2)..(k + n - 1) : RxCont(s[j])
+    ELSE /\ RxCont(b)
+         /\ \E d \in 1..3 : /\ k - d >= 1
+                            /\ RxLeadLen(s[k - d]) >= d + 1
+                            /\ \A j \in (k - d + 1)..(k - 1) : RxCont(s[j])
+
+\* "valid", "invalid" (Go rejects the pattern) or "opaque" (not decided).
+\* Flag x is not looked at.
+RxPatternClass(pat, flags) ==
+  IF ~IsAscii(pat) /\ ~RxValidUTF8(pat) THEN "invalid"
+  ELSE IF flags.q \/ IsLiteralPattern(pat) THEN "valid"
+  ELSE IF ~IsAscii(pat) \/ Len(pat) > RxMaxPat THEN "opaque"
+  ELSE LET r == RxParse(pat, flags) IN
+       IF r.ok THEN "valid" ELSE IF r.why = "invalid" THEN "invalid" ELSE "opaque"
+
+\* Diagnostics: why RegexMatch answers "opaque" ("none" if it does not).
+RxWhyOpaque(pat, flags, s) ==
+  IF RxFlagX(flags) /\ ~flags.q THEN "flagx"
+  ELSE IF flags.q \/ IsLiteralPattern(pat) THEN
+     IF flags.i /\ ~(IsAscii(pat) /\ IsAscii(s)) THEN "nonascii"
+     ELSE IF ~IsAscii(pat) /\ ~(RxValidUTF8(pat) /\ RxValidUTF8(s)) THEN "utf8"
+     ELSE "none"
+  ELSE IF ~IsAscii(pat) \/ ~IsAscii(s) THEN "nonascii"
+  ELSE IF Len(pat) > RxMaxPat \/ Len(s) > RxMaxSubj THEN "long"
+  ELSE LET r == RxParse(pat, flags) IN IF r.ok THEN "none" ELSE r.why
+
 RegexMatch(pat, flags, s) ==      \* "T", "F" or "opaque"
-  IF flags.q \/ IsLiteralPattern(pat) THEN
+  IF RxFlagX(flags) /\ ~flags.q THEN "opaque"                \* rejected when the path is parsed
+  ELSE IF flags.q \/ IsLiteralPattern(pat) THEN
      IF flags.i THEN (IF IsAscii(pat) /\ IsAscii(s) THEN TF(HasSub(FoldBytes(s), FoldBytes(pat))) ELSE "opaque")
-     ELSE TF(HasSub(s, pat))
-  ELSE "opaque"
+     ELSE IF IsAscii(pat) \/ (RxValidUTF8(pat) /\ RxValidUTF8(s)) THEN TF(HasSub(s, pat))
+     ELSE "opaque"
+  ELSE IF ~IsAscii(pat) \/ ~IsAscii(s) THEN "opaque"
+  ELSE IF Len(pat) > RxMaxPat \/ Len(s) > RxMaxSubj THEN "opaque"
+  ELSE LET r == RxParse(pat, flags) IN
+       IF ~r.ok THEN "opaque" ELSE TF(RxEnds(r.node, s, 0..Len(s)) # {})
 =============================================================================
